@@ -43,11 +43,12 @@ var c16FuzzEncs = []string{"", "", "", "gnu", "pax", "v7"}
 
 // c16Decode maps fuzz bytes to a case:
 //
-//	[chartName] [nPlants%3] {plantAt plantKind plantTo}* [nEntries%6+1] {prefix nComps%5+1 {comp | 0xff len raw} sepBits type link enc flags}* {mutOffLo mutOffHi xor}*
+//	[opts: bit0 clear = announce parent directories (extract)] [chartName] [nPlants%3] {plantAt plantKind plantTo}* [nEntries%6+1] {prefix nComps%5+1 {comp | 0xff len raw} sepBits type link enc flags}* {mutOffLo mutOffHi xor}*
 func c16Decode(data []byte, target string) *c16ACase {
 	cur := &c16Cursor{b: data}
 	c := &c16ACase{Target: target}
 	pick := func(list []string) string { return list[cur.next()%len(list)] }
+	opts := cur.next()
 	chartName := pick(c16ChartNm)
 	for i, n := 0, cur.next()%3; i < n; i++ {
 		p := c16Plant{Path: pick(c16PlantAt)}
@@ -119,6 +120,9 @@ func c16Decode(data []byte, target string) *c16ACase {
 		c.Muts = append(c.Muts, c16Mut{Off: off, Xor: byte(cur.next())})
 	}
 	c.FixSums = len(c.Muts)%2 == 1
+	if opts&1 == 0 && target == "extract" {
+		c.Entries = c16WithDirs(c.Entries)
+	}
 	return c
 }
 
@@ -144,7 +148,7 @@ type c16SeedEntry struct {
 }
 
 func c16Seed(chartName string, plants [][3]string, entries []c16SeedEntry, muts ...[3]byte) []byte {
-	b := []byte{c16Idx(c16ChartNm, chartName), byte(len(plants))}
+	b := []byte{0, c16Idx(c16ChartNm, chartName), byte(len(plants))}
 	for _, p := range plants {
 		kind := map[string]byte{"dir": 0, "file": 1, "symlink": 2}[p[1]]
 		b = append(b, c16Idx(c16PlantAt, p[0]), kind, c16Idx(c16PlantTo, p[2]))
